@@ -37,7 +37,6 @@ def valJ : Val → Json
   | some q => ratJ q
 def resJ : Res → Json
   | .ok v => valJ v
-  | .zeroDiv => Json.mkObj [("err", "raised:ZeroDivisionError")]
 def mapJ {V : Type} (f : V → Json) (m : GMap V) : Json :=
   Json.arr ((m.mergeSort (fun a b => decide (a.1 ≤ b.1))).map (fun p => Json.arr #[ratJ p.1, f p.2])).toArray
 
